@@ -9,6 +9,8 @@ implementation is measured by the correspondence (harness/c01.py), not proved.
 import Midgard.Proofs.TimeScale
 import Midgard.Generated.TimeScaleTables
 import Midgard.Spec.TaiUtcPublished
+import Midgard.Generated.SourceExprsTime
+import Mathlib.Tactic.NormNum
 
 set_option linter.unusedSimpArgs false
 
@@ -244,6 +246,77 @@ example : (utc2tai T C.tol ⟨4915509 / 2, 0⟩).inst - 4915509 / 2 = 37 / 86400
 example : (utc2tai T C.tol ⟨4915507 / 2, 86399999999 / 86400000000⟩).inst
     - (4915507 / 2 + 86399999999 / 86400000000) = 36 / 86400 := by decide +kernel
 
+
+/-! ### The model is the source (regenerated on every run)
+
+`Generated/SourceExprsTime.lean` is written by `translator/extract_exprs.py` from the Python `ast` of `_time.py` in
+the tree under test: the arithmetic of `delta_tai_utc` (both branches), of the row starts expressed in TAI, of the
+"row has started" test of `_taiutc_idx`, of `delta_tai_tt`, `delta_gps_tai`, `delta_tcg_tt` (both branches each) and
+of the eight registered hop functions, statement by statement.  The theorems of this section say that the model
+definitions every other theorem of this file is about are *equal* (over ℚ) to those regenerated definitions, with
+`Unit.seconds2day = 1/86400`.  Hand-modelled and tied by the correspondence only: the NumPy row selection
+(`np.sum(… >= 0) - 1`, `np.maximum`), the route search and `to_scale`'s folding of the hops. -/
+section Source
+open Midgard.Generated
+set_option linter.unusedTactic false
+set_option linter.unreachableTactic false
+set_option linter.unnecessarySeqFocus false
+set_option linter.unusedSimpArgs false
+
+open Lean.Parser.Tactic in
+macro "src_tie_q" "[" ds:simpLemma,* "]" : tactic =>
+  `(tactic| first
+    | rfl
+    | (simp only [$ds,*, Prod.mk.injEq, JD.mk.injEq]
+       <;> (repeat' constructor)
+       <;> ((try norm_num1) <;> (first | rfl | ring_nf | (field_simp; ring_nf)))))
+
+/-- `Unit.seconds2day` is the reciprocal of the day length the model divides by -/
+def s2d : Rat := 1 / secPerDay
+
+theorem source_delta_tai_utc (r : Row) (mjd : Rat) :
+    SrcTime.deltaTaiUtcOfUtcSrc r.offset r.refMjd r.rate mjd s2d = r.deltaAt mjd / secPerDay ∧
+    SrcTime.deltaTaiUtcOfTaiSrc r.offset r.refMjd r.rate mjd s2d
+      = (0 - (r.offset + (mjd - r.refMjd) * r.rate) / (1 + r.rate / secPerDay)) / secPerDay ∧
+    SrcTime.rowStartDeltaSrc r.start r.offset r.refMjd r.rate s2d = r.startDelta := by
+  refine ⟨?_, ?_, ?_⟩ <;>
+    src_tie_q [SrcTime.deltaTaiUtcOfUtcSrc, SrcTime.deltaTaiUtcOfTaiSrc, SrcTime.rowStartDeltaSrc, Row.deltaAt, Row.startDelta, s2d, secPerDay, mjd0]
+
+theorem source_row_started (r : Row) (tol : Rat) (j : JD) :
+    (SrcTime.rowStartedSrc j.jd1 j.jd2 r.start 0 tol = decide (0 ≤ (j.jd1 - r.start) + j.jd2 + tol)) ∧
+    (SrcTime.rowStartedSrc j.jd1 j.jd2 r.start r.startDelta tol = decide (0 ≤ (j.jd1 - r.start) + j.jd2 - r.startDelta + tol)) := by
+  constructor <;> (simp only [SrcTime.rowStartedSrc, ge_iff_le, decide_eq_decide]; try ring_nf)
+
+theorem source_constant_offsets :
+    SrcTime.deltaTaiTtOfTaiSrc s2d = ttTaiDays ∧ SrcTime.deltaTaiTtOfTtSrc s2d = -ttTaiDays ∧
+    SrcTime.deltaGpsTaiOfGpsSrc s2d = gpsTaiDays ∧ SrcTime.deltaGpsTaiOfTaiSrc s2d = -gpsTaiDays := by
+  refine ⟨?_, ?_, ?_, ?_⟩ <;>
+    (simp only [SrcTime.deltaTaiTtOfTaiSrc, SrcTime.deltaTaiTtOfTtSrc, SrcTime.deltaGpsTaiOfGpsSrc, SrcTime.deltaGpsTaiOfTaiSrc, ttTaiDays, gpsTaiDays, s2d, secPerDay]; norm_num)
+
+theorem source_delta_tcg_tt (c : Consts) (j : JD) :
+    SrcTime.deltaTcgTtOfTtSrc j.jd1 j.jd2 c.t0jd1 c.t0jd2 c.lG = c.lG / (1 - c.lG) * tcgDt c j ∧
+    SrcTime.deltaTcgTtOfTcgSrc j.jd1 j.jd2 c.t0jd1 c.t0jd2 c.lG = -(c.lG * tcgDt c j) := by
+  refine ⟨?_, ?_⟩ <;> src_tie_q [SrcTime.deltaTcgTtOfTtSrc, SrcTime.deltaTcgTtOfTcgSrc, tcgDt]
+
+/-- the eight registered hops: each keeps `jd1` and adds to `jd2` the delta function the source calls -/
+theorem source_hops (tbl : List Row) (c : Consts) (j : JD) (x1 x2 x3 x4 : Rat) :
+    (let r := utc2tai tbl c.tol j; SrcTime.utc2taiSrc j.jd1 j.jd2 (deltaUtc tbl c.tol j) x2 x3 x4 = (r.jd1, r.jd2)) ∧
+    (let r := tai2utc tbl c.tol j; SrcTime.tai2utcSrc j.jd1 j.jd2 (deltaTai tbl c.tol j) x2 x3 x4 = (r.jd1, r.jd2)) ∧
+    (let r := tai2tt j; SrcTime.tai2ttSrc j.jd1 j.jd2 x1 (SrcTime.deltaTaiTtOfTaiSrc s2d) x3 x4 = (r.jd1, r.jd2)) ∧
+    (let r := tt2tai j; SrcTime.tt2taiSrc j.jd1 j.jd2 x1 (SrcTime.deltaTaiTtOfTtSrc s2d) x3 x4 = (r.jd1, r.jd2)) ∧
+    (let r := tt2tcg c j; SrcTime.tt2tcgSrc j.jd1 j.jd2 x1 x2 (SrcTime.deltaTcgTtOfTtSrc j.jd1 j.jd2 c.t0jd1 c.t0jd2 c.lG) x4 = (r.jd1, r.jd2)) ∧
+    (let r := tcg2tt c j; SrcTime.tcg2ttSrc j.jd1 j.jd2 x1 x2 (SrcTime.deltaTcgTtOfTcgSrc j.jd1 j.jd2 c.t0jd1 c.t0jd2 c.lG) x4 = (r.jd1, r.jd2)) ∧
+    (let r := gps2tai j; SrcTime.gps2taiSrc j.jd1 j.jd2 x1 x2 x3 (SrcTime.deltaGpsTaiOfGpsSrc s2d) = (r.jd1, r.jd2)) ∧
+    (let r := tai2gps j; SrcTime.tai2gpsSrc j.jd1 j.jd2 x1 x2 x3 (SrcTime.deltaGpsTaiOfTaiSrc s2d) = (r.jd1, r.jd2)) := by
+  have h := source_constant_offsets
+  have g := source_delta_tcg_tt c j
+  refine ⟨?_, ?_, ?_, ?_, ?_, ?_, ?_, ?_⟩ <;>
+    (simp only [SrcTime.utc2taiSrc, SrcTime.tai2utcSrc, SrcTime.tai2ttSrc, SrcTime.tt2taiSrc, SrcTime.tt2tcgSrc, SrcTime.tcg2ttSrc,
+       SrcTime.gps2taiSrc, SrcTime.tai2gpsSrc, utc2tai, tai2utc, tai2tt, tt2tai, tt2tcg, tcg2tt, gps2tai, tai2gps, h.1, h.2.1, h.2.2.1, h.2.2.2, g.1, g.2,
+       Prod.mk.injEq, true_and] <;> (first | rfl | ring_nf))
+
+end Source
+
 end Midgard.Props.C01
 
 #print axioms Midgard.Props.C01.taiutc_eq_published
@@ -275,3 +348,8 @@ end Midgard.Props.C01
 #print axioms Midgard.Props.C01.hopI_utc_of_ok
 #print axioms Midgard.Props.C01.hopI_tai_of_ok
 #print axioms Midgard.Props.C01.path_independent
+#print axioms Midgard.Props.C01.source_delta_tai_utc
+#print axioms Midgard.Props.C01.source_row_started
+#print axioms Midgard.Props.C01.source_constant_offsets
+#print axioms Midgard.Props.C01.source_delta_tcg_tt
+#print axioms Midgard.Props.C01.source_hops
